@@ -9,6 +9,7 @@ import (
 	"strconv"
 	"strings"
 	"sync"
+	"sync/atomic"
 	"time"
 )
 
@@ -128,6 +129,7 @@ func CheckProperty(opt Options) int {
 		workers = len(jobs)
 	}
 	results := make([]*JobResult, len(jobs))
+	var failedJobs int32
 	var wg sync.WaitGroup
 	ch := make(chan int)
 	for w := 0; w < workers; w++ {
@@ -135,7 +137,21 @@ func CheckProperty(opt Options) int {
 		go func() {
 			defer wg.Done()
 			for i := range ch {
+				// fail fast: once counterexamples were found in two ordinary
+				// jobs the remaining ones are not started (the run has failed;
+				// under a breaking change they are often the slow ones)
+				if atomic.LoadInt32(&failedJobs) >= 2 {
+					fe := map[string]bool{}
+					for _, id := range jobs[i].Spec.Expect {
+						fe[id] = true
+					}
+					results[i] = &JobResult{Job: jobs[i], FeasibleIDs: fe, NotRun: true}
+					continue
+				}
 				results[i] = runJob(jobs[i])
+				if jobs[i].Spec.Role == "" && len(results[i].Violations) > 0 {
+					atomic.AddInt32(&failedJobs, 1)
+				}
 				if opt.Verbose {
 					r := results[i]
 					fmt.Printf("  job %s[%s]: finals=%d oblig=%d/%d viol=%d inconcl=%d queries=%d solver=%.1fs wall=%.1fs\n",
@@ -306,9 +322,16 @@ func CheckProperty(opt Options) int {
 	wall := time.Since(start).Seconds()
 	writeEvidence(opt, spec, results, known, witnessOK, inconclusive, wall, map[string]float64{"load_s": loadSecs, "eval_model_cases_compared_with_go_types": float64(evalCompared)})
 	totalQ, totalS := 0, 0.0
+	notRun := 0
 	for _, r := range results {
 		totalQ += r.Solver.Queries
 		totalS += r.Solver.Seconds
+		if r.NotRun {
+			notRun++
+		}
+	}
+	if notRun > 0 {
+		fmt.Printf("NOTE: %d of %d jobs were not started after counterexamples had been found in two others (fail fast)\n", notRun, len(jobs))
 	}
 	fmt.Printf("property=%s tier=%s jobs=%d violations=%d inconclusive=%d witnesses_agreed=%d queries=%d solver_s=%.1f wall_s=%.1f exit=%d\n",
 		spec.ID, opt.Tier, len(jobs), violations, len(inconclusive), witnessOK, totalQ, totalS, wall, exit)
